@@ -204,6 +204,8 @@ class InferScenario:
             a = args[0]
             if isinstance(a, R) and a.kind == "val":
                 return a.fields["cls"]
+            if isinstance(a, R) and a.kind == "keyrep":
+                return S({"nonstr": "builtin:int", "strsub": "class:MyStr"}.get(a.fields["sort"].v, "builtin:str"))
             return R("class_of", of=a)
         if d == "id" and len(args) == 1 and isinstance(args[0], R) and args[0].kind == "val":
             return R("id", of=K(identity(args[0])))
@@ -230,6 +232,36 @@ class InferScenario:
             if isinstance(a, R) and a.kind == "dict":
                 return K(len(a.fields["items"]))
             return None
+        if d in ("all", "any") and len(call.args) == 1 and isinstance(call.args[0], (ast.GeneratorExp, ast.ListComp)) \
+                and len(call.args[0].generators) == 1 and not call.args[0].generators[0].ifs:
+            # a predicate over the keys of the abstract dict: decided per *sort* of key the scenario's dict holds (exact str
+            # that is an identifier / not an identifier / a reserved word, instance of a str subclass, not a str at all)
+            gen0 = call.args[0].generators[0]
+            itv = self.ri.interp.eval(gen0.iter, st)
+            dv = itv.fields["of"] if isinstance(itv, R) and itv.kind == "view" and itv.fields["what"] == K("keys") else itv
+            if isinstance(dv, R) and dv.kind == "val" and dv.fields.get("keykind", K(None)).v in KEY_SORTS and dv.fields["n"].v is not None:
+                sorts = KEY_SORTS[dv.fields["keykind"].v] if dv.fields["n"].v > 0 else ()
+                truths: Optional[List[bool]] = []
+                for srt in sorts:
+                    sub = st.fork()
+                    sub.effects, sub.heap, sub._next = st.effects, st.heap, st._next
+                    self.ri.interp._assign(gen0.target, R("keyrep", sort=K(srt), of=dv), sub)
+                    t_k = self.ri.interp._truth_of(call.args[0].elt, sub)
+                    if t_k is None or sub.pending is not None:
+                        truths = None
+                        break
+                    truths.append(t_k)  # type: ignore[union-attr]
+                if truths is not None:
+                    self.calls.append((d, (canon(args[0]),), {}))
+                    return K(all(truths) if d == "all" else any(truths))
+        if isinstance(fval, R) and fval.kind == "keyrep" and isinstance(call.func, ast.Attribute) and not args:
+            srt = fval.fields["sort"].v
+            if call.func.attr == "isidentifier":
+                return K(srt in ("ident", "keyword", "strsub"))
+        if d in ("keyword.iskeyword", "iskeyword") and len(args) == 1 and isinstance(args[0], R) and args[0].kind == "keyrep":
+            return K(args[0].fields["sort"].v == "keyword")
+        if d in ("str.isidentifier",) and len(args) == 1 and isinstance(args[0], R) and args[0].kind == "keyrep":
+            return K(args[0].fields["sort"].v in ("ident", "keyword", "strsub"))
         if d in ("all", "any") and len(args) == 1:
             a = args[0]
             if isinstance(a, K) and isinstance(a.v, tuple) and all(isinstance(x, K) for x in a.v):
@@ -413,15 +445,26 @@ def get_type_table(repo: Repo, limits: Tuple[int, ...] = (0, 2)) -> List[Tuple[s
     return out
 
 
+# sorts of key an abstract dict of each key kind holds
+KEY_SORTS: Dict[str, Tuple[str, ...]] = {
+    "str": ("ident",),                   # every key an exact str that can be written as a class field
+    "mixed": ("ident", "nonstr"),
+    "nonstr": ("nonstr",),
+    "nonident": ("ident", "nonident"),   # exact str keys, one of them not an identifier ("my-key", "")
+    "keyword": ("ident", "keyword"),     # exact str keys, one of them a reserved word ("class")
+    "strsub": ("strsub",),               # instances of a subclass of str
+}
+
+
 def dict_type_table(repo: Repo) -> List[Tuple[int, str, int, R, V]]:
     fi = repo.fn(TY, "get_dict_type")
     ps = fi.positional_params()
     out = []
     for n in (0, 1, 2, 3):
-        for kk in ("str", "mixed", "nonstr"):
+        for kk in ("str", "mixed", "nonstr", "nonident", "keyword", "strsub"):
             if n == 0 and kk != "str":
                 continue
-            if n == 1 and kk == "mixed":
+            if n < len(KEY_SORTS[kk]):
                 continue
             for m in (0, 1, 2, 3):
                 sc = InferScenario(repo, "get_dict_type", all_str=(kk == "str"), any_str=(kk != "nonstr" and n > 0))
